@@ -234,23 +234,31 @@ func (w *walker) transaction(i int, decide int, byKey bool) {
 			}
 		}
 	}
-	// C10: verdict is exact.  The value the limited variable would take is (by C02) pre + reported change.
+	// C10: verdict is exact.  Ground truth: the value the limited variable takes in a freshly initialised
+	// model to which exactly the prospective set is applied; cross-checked with pre + reported change (C02).
 	if cm.limVar >= 0 {
-		would := pre.totals[cm.limVar] + ch[cm.limVar]
+		prospective := append([]bool(nil), pre.flags...)
+		prospective[i] = !prospective[i]
+		would := w.ref.at(prospective).totals[cm.limVar]
+		byChange := pre.totals[cm.limVar] + ch[cm.limVar]
 		exceeds := would > cm.limit+1e-9
 		if valid == exceeds {
 			kind := "rejected-although-within-limit"
 			if valid {
 				kind = "accepted-although-exceeding-limit"
 			}
-			if !valid && ch[cm.limVar] <= 0 {
+			if !valid && would <= pre.totals[cm.limVar] {
 				kind = "rejected-although-lowering"
 			}
 			w.fail("C10:verdict-exact", "catchment:verdict-wrong:"+kind,
-				fmt.Sprintf("propose %d in set %s: %s is %v, change %v, would be %v, limit %v, verdict valid=%v (%s)", i, pre.enc, varNames[cm.limVar], pre.totals[cm.limVar], ch[cm.limVar], would, cm.limit, valid, clip(msg, 200)))
+				fmt.Sprintf("propose %d in set %s: %s is %v, would be %v (reported change %v), limit %v, verdict valid=%v (%s)", i, pre.enc, varNames[cm.limVar], pre.totals[cm.limVar], would, ch[cm.limVar], cm.limit, valid, clip(msg, 200)))
 		} else if !valid && !near(q, would) {
 			w.fail("C10:quoted-value-is-prospective", "catchment:quoted-value-wrong",
 				fmt.Sprintf("propose %d in set %s: rejection quotes %v but %s would be %v", i, pre.enc, q, varNames[cm.limVar], would))
+		}
+		if !near(would, byChange) {
+			w.fail("C02:reported-change-is-prospective-change", "catchment:reported-change-wrong:"+varShort[cm.limVar],
+				fmt.Sprintf("propose %d in set %s: reported change %v but %s would go %v -> %v", i, pre.enc, ch[cm.limVar], varNames[cm.limVar], pre.totals[cm.limVar], would))
 		}
 		w.c.Stat(fmt.Sprintf("%s verdict valid=%v exceeds=%v sign=%d", w.tag, valid, exceeds, sign(ch[cm.limVar])))
 	}
